@@ -313,6 +313,9 @@ pub struct Build {
     pub sct_slc: Option<u32>,
     pub fti: Option<Fti>,
     pub extra_exts: Vec<Vec<u8>>,
+    /// write the single-word extensions EXT_FDT and EXT_CENC LAST (after EXT_TIME, the extra ones and EXT_FTI): the order
+    /// of header extensions is free (RFC 5651), flute's sender writes them first
+    pub fdt_cenc_last: bool,
     pub sbn: u32,
     pub esi: u32,
     pub sbl: u32,
@@ -429,12 +432,14 @@ pub fn encode(b: &Build) -> Vec<u8> {
     push_be(&mut out, b.cci, 4 * (c as usize + 1));
     push_be(&mut out, b.tsi as u128, 4 * s as usize + 2 * h as usize);
     push_be(&mut out, b.toi, 4 * o as usize + 2 * h as usize);
-    if let Some((v, id)) = b.fdt {
-        let w: u32 = ((HET_FDT as u32) << 24) | ((v as u32 & 0xF) << 20) | (id & 0xFFFFF);
-        out.extend_from_slice(&w.to_be_bytes());
-    }
-    if let Some(ce) = b.cenc {
-        out.extend_from_slice(&[HET_CENC, ce, 0, 0]);
+    if !b.fdt_cenc_last {
+        if let Some((v, id)) = b.fdt {
+            let w: u32 = ((HET_FDT as u32) << 24) | ((v as u32 & 0xF) << 20) | (id & 0xFFFFF);
+            out.extend_from_slice(&w.to_be_bytes());
+        }
+        if let Some(ce) = b.cenc {
+            out.extend_from_slice(&[HET_CENC, ce, 0, 0]);
+        }
     }
     if b.sct.is_none() && (b.sct_ert.is_some() || b.sct_slc.is_some()) {
         // an EXT_TIME without any sender current time (RFC 5651 5.2.2.3: every field of it is optional)
@@ -488,6 +493,15 @@ pub fn encode(b: &Build) -> Vec<u8> {
     }
     if let Some(f) = &b.fti {
         out.extend_from_slice(&encode_fti(f));
+    }
+    if b.fdt_cenc_last {
+        if let Some(ce) = b.cenc {
+            out.extend_from_slice(&[HET_CENC, ce, 0, 0]);
+        }
+        if let Some((v, id)) = b.fdt {
+            let w: u32 = ((HET_FDT as u32) << 24) | ((v as u32 & 0xF) << 20) | (id & 0xFFFFF);
+            out.extend_from_slice(&w.to_be_bytes());
+        }
     }
     debug_assert!(out.len() % 4 == 0);
     out[2] = (out.len() / 4) as u8;
@@ -592,6 +606,7 @@ pub fn to_build(d: &Decoded) -> Build {
         sct_slc: None,
         fti: d.fti.clone(),
         extra_exts: extra,
+        fdt_cenc_last: false,
         sbn: d.sbn,
         esi: d.esi,
         sbl: d.sbl.unwrap_or(0),
@@ -691,7 +706,7 @@ pub fn rq_deinterleave(symbols: &[Vec<u8>], sizes: &[usize]) -> Vec<u8> {
 /// The same packet in another LEGAL encoding (RFC 5651): nothing a receiver acts on changes.
 /// mode bit 0: the widest TSI / TOI fields the flags allow (48-bit TSI, 112-bit TOI); bit 1: a 128-bit congestion control
 /// field; bit 2: header extensions a receiver must skip - EXT_NOP (one and two words), an unknown variable-length
-/// extension, an unknown fixed-length one - ahead of the EXT_FTI.
+/// extension, an unknown fixed-length one - ahead of the EXT_FTI; bit 3: the single-word EXT_FDT / EXT_CENC written last.
 pub fn reencode(bytes: &[u8], mode: u8) -> Option<Vec<u8>> {
     let d = decode(bytes).ok()?;
     let mut b = to_build(&d);
@@ -707,6 +722,9 @@ pub fn reencode(bytes: &[u8], mode: u8) -> Option<Vec<u8>> {
         b.extra_exts.push(vec![0, 2, 0xAA, 0xBB, 1, 2, 3, 4]);
         b.extra_exts.push(vec![100, 2, 9, 9, 9, 9, 9, 9]);
         b.extra_exts.push(vec![250, 1, 2, 3]);
+    }
+    if mode & 8 != 0 {
+        b.fdt_cenc_last = true;
     }
     Some(encode(&b))
 }
